@@ -78,6 +78,7 @@ int aes_cbc_padding_decrypt(const AES_KEY *key, const uint8_t iv[16],
 	uint8_t last_iv[16];
 	size_t len = sizeof(block);
 	int padding;
+	int i;
 
 	if (inlen == 0) {
 		error_print();
@@ -98,6 +99,13 @@ int aes_cbc_padding_decrypt(const AES_KEY *key, const uint8_t iv[16],
 	if (padding < 1 || padding > 16) {
 		error_print();
 		return -1;
+	}
+	// PKCS #7: all padding bytes carry the padding length
+	for (i = 16 - padding; i < 16; i++) {
+		if (block[i] != padding) {
+			error_print();
+			return -1;
+		}
 	}
 	len -= padding;
 	memcpy(out + inlen - 16, block, len);
